@@ -98,6 +98,11 @@ META = {
         "registries (docutils resolves references against the registries, so a registered footnote from dropped content must be put "
         "back into the tree), never by a tree walk or from a subset. R5: create_warning results collected by a list display / "
         "comprehension are followed like singly assigned ones. "
+        "R5 (round 17): whether a create_warning result is 'already attached' is decided from the effective receiver: the renderer's "
+        "forwarding wrapper must hand append_to on unchanged; if it substitutes a receiver when the caller gives none (`X if append_to is "
+        "None else append_to`, `append_to or X`) every method call without append_to is judged as create_warning(append_to=X) (any other "
+        "shape, or a rebound parameter, is an analysis error once a used result depends on it); callers that attach the returned collection "
+        "are followed through functions that merely hand the result on (`return helper(...)`, up to three levels). "
         "R6: the first child a new section can receive, on every path, is its nodes.title (interprocedural may-append summary: "
         "direct appends, note_*_target(_, msgnode) where msgnode may be the node - also through a conditional expression or a helper that may hand its argument back -, create_warning(append_to=), becoming the current node; parameter guards of "
         "helpers evaluated against the call's literal arguments). "
@@ -3116,11 +3121,124 @@ def _one_node_one_attach(corpus: Corpus, rep: Report) -> None:
                 rep.ok("C03.R5", key, site, f"{len(evs)} attach site(s), never two on one path")
 
 
+def _none_test(t: ast.expr, pname: str) -> bool | None:
+    """Truth of test ``t`` when parameter ``pname`` holds None (None = not decidable from the shape)."""
+    if isinstance(t, ast.UnaryOp) and isinstance(t.op, ast.Not):
+        r = _none_test(t.operand, pname)
+        return None if r is None else not r
+    if isinstance(t, ast.Name) and t.id == pname:
+        return False
+    if isinstance(t, ast.Compare) and len(t.ops) == 1 and isinstance(t.left, ast.Name) and t.left.id == pname and isinstance(t.comparators[0], ast.Constant) and t.comparators[0].value is None:
+        if isinstance(t.ops[0], (ast.Is, ast.Eq)):
+            return True
+        if isinstance(t.ops[0], (ast.IsNot, ast.NotEq)):
+            return False
+    return None
+
+
+def _value_when_none(e: ast.expr | None, pname: str, depth: int = 0) -> tuple[str, ast.expr | None]:
+    """What expression ``e`` evaluates to when parameter ``pname`` is None: ("none", None) - it stays None;
+    ("attach", X) - some other receiver X takes its place; ("unknown", e) - shape not understood."""
+    if e is None or (isinstance(e, ast.Constant) and e.value is None) or (isinstance(e, ast.Name) and e.id == pname):
+        return ("none", None)
+    if depth > 4:
+        return ("unknown", e)
+    if isinstance(e, ast.IfExp):
+        r = _none_test(e.test, pname)
+        if r is None:
+            return ("unknown", e)
+        return _value_when_none(e.body if r else e.orelse, pname, depth + 1)
+    if isinstance(e, ast.BoolOp) and len(e.values) == 2 and isinstance(e.values[0], ast.Name) and e.values[0].id == pname:
+        if isinstance(e.op, ast.And):
+            return ("none", None)
+        return _value_when_none(e.values[1], pname, depth + 1)
+    if any(isinstance(y, ast.Name) and y.id == pname for y in ast.walk(e)):
+        return ("unknown", e)
+    if isinstance(e, (ast.Attribute, ast.Name, ast.Subscript)):
+        return ("attach", e)
+    return ("unknown", e)
+
+
+def _warning_wrappers(corpus: Corpus) -> dict[str, tuple[FunctionInfo, str, ast.expr | None]]:
+    """The forwarding wrappers `def create_warning(..., append_to=None): return create_warning(..., append_to=E)`:
+    fq -> (wrapper, status, X) where status says what receiver the message node gets when the caller gives none."""
+    def compute():
+        out = {}
+        for fi in corpus.all_functions():
+            if fi.is_lambda or fi.name != "create_warning" or "append_to" not in fi.params:
+                continue
+            fwd = [c for c in fi.local_nodes() if isinstance(c, ast.Call) and _create_warning_call(c) and isinstance(parent(c), ast.Return)]
+            if not fwd:
+                continue
+            res: tuple[str, ast.expr | None] = ("none", None)
+            if any(not isinstance(b, ast.arg) for b, _, _ in _bindings(fi, "append_to")):
+                res = ("unknown", None)
+            for c in fwd:
+                if any(k.arg is None for k in c.keywords):
+                    r = ("unknown", c)
+                else:
+                    r = _value_when_none(kwarg(c, "append_to"), "append_to")
+                if r[0] != "none" and res[0] != "unknown":
+                    res = r
+            out[fi.fq] = (fi, res[0], res[1])
+        return out
+    return corpus.cache("c03.warning_wrappers", compute)
+
+
+def _result_attached_by_callers(g, fi: FunctionInfo, depth: int = 0, seen: frozenset = frozenset()) -> list[str]:
+    """Attach sites, in the callers of ``fi`` (and, where a caller just hands the result on, in theirs), of the value ``fi`` returns."""
+    out: list[str] = []
+    if depth > 3 or fi.fq in seen:
+        return out
+    seen = seen | {fi.fq}
+    for cfi, call in g.callers().get(fi.fq, []):
+        if cfi.is_lambda:
+            continue
+        pc = parent(call)
+        ev = [e for e in _attach_events(cfi) if any(y is call for v in e[2] for y in ast.walk(v))]
+        if ev:
+            out.append(f"`{short(ev[0][0], 50)}` in {cfi.qualname}")
+        elif isinstance(pc, ast.Assign) and len(pc.targets) == 1 and isinstance(pc.targets[0], ast.Name):
+            h2 = _value_attached_in(cfi, pc.targets[0].id)
+            if h2 is not None:
+                out.append(f"`{short(h2, 50)}` in {cfi.qualname}")
+            elif _returned_with(cfi, pc.targets[0].id) is not None:
+                out.extend(_result_attached_by_callers(g, cfi, depth + 1, seen))
+        elif isinstance(pc, ast.Return):
+            out.extend(_result_attached_by_callers(g, cfi, depth + 1, seen))
+    return out
+
+
 def _attach_and_return(corpus: Corpus, rep: Report) -> None:
     """create_warning(..., append_to=X) attaches the message node to X *and* returns it: a result obtained
     that way must not be attached again (directly, or by a caller that attaches the returned collection)."""
     g = get_callgraph(corpus)
     n_used = 0
+    wrappers = _warning_wrappers(corpus)
+    for wfi, status, wx in wrappers.values():
+        wkey = f"{wfi.fq}|a warning created without append_to is attached nowhere by the wrapper"
+        if status == "none":
+            rep.ok("C03.R5", wkey, wfi.site(), "append_to is forwarded as given (None stays None)")
+        elif status == "attach":
+            rep.listed("C03.R5", wkey, wfi.site(), f"without append_to the wrapper attaches the message node to `{unparse(wx)}`: every call is judged as create_warning(append_to={unparse(wx)})")
+
+    def effective_append_to(fi: FunctionInfo, c: ast.Call) -> ast.expr | None:
+        """The receiver the message node is attached to by the call itself (None: nowhere)."""
+        a = kwarg(c, "append_to")
+        if a is not None and not (isinstance(a, ast.Constant) and a.value is None):
+            return a
+        if not isinstance(c.func, ast.Attribute):
+            return None  # the module-level function: attaches only to a given append_to (C14.R5 reads its body)
+        tgts = [t for t in g.flat_targets(g.resolve_call(c, fi)) if t.fq in wrappers]
+        cands = [wrappers[t.fq] for t in tgts] or [w for w in wrappers.values() if w[0].cls is not None]
+        for wfi, status, wx in cands:
+            if status == "unknown":
+                raise Unsupported(f"{wfi.site()} {wfi.qualname}: what `append_to` becomes when the caller gives none is not understood; result of `{short(c, 50)}` in {fi.qualname} cannot be judged")
+        for wfi, status, wx in cands:
+            if status == "attach":
+                return wx
+        return None
+
     for fi in corpus.all_functions():
         if fi.is_lambda:
             continue
@@ -3142,15 +3260,15 @@ def _attach_and_return(corpus: Corpus, rep: Report) -> None:
                 p = parent(p)
             if not (isinstance(p, ast.Assign) and len(p.targets) == 1 and isinstance(p.targets[0], ast.Name)):
                 if isinstance(p, ast.Return):
-                    if hops and (kwarg(c, "append_to") is None or (isinstance(kwarg(c, "append_to"), ast.Constant) and kwarg(c, "append_to").value is None)):
+                    if hops and effective_append_to(fi, c) is None:
                         continue  # returned in a fresh list, attached nowhere else here
                     if not hops:
                         continue  # a wrapper returning the node; C14.R5 judges such wrappers
                 raise Unsupported(f"result of `{short(c, 50)}` used in `{short(p, 50)}` in {fi.qualname}")
             n_used += 1
             var = p.targets[0].id
-            a = kwarg(c, "append_to")
-            attached_by_api = a is not None and not (isinstance(a, ast.Constant) and a.value is None)
+            a = effective_append_to(fi, c)
+            attached_by_api = a is not None
             key = f"{fi.fq}|warning node attached once|{short(c, 60)}"
             site = fi.module.site(c)
             rep.saw_function(fi.fq)
@@ -3161,17 +3279,7 @@ def _attach_and_return(corpus: Corpus, rep: Report) -> None:
                 again.append(f"`{short(hit, 50)}` in {fi.qualname}")
             ret = _returned_with(fi, var)
             if ret is not None:
-                for cfi, call in g.callers().get(fi.fq, []):
-                    if cfi.is_lambda:
-                        continue
-                    pc = parent(call)
-                    ev = [e for e in _attach_events(cfi) if any(y is call for v in e[2] for y in ast.walk(v))]
-                    if ev:
-                        again.append(f"`{short(ev[0][0], 50)}` in {cfi.qualname}")
-                    elif isinstance(pc, ast.Assign) and len(pc.targets) == 1 and isinstance(pc.targets[0], ast.Name):
-                        h2 = _value_attached_in(cfi, pc.targets[0].id)
-                        if h2 is not None:
-                            again.append(f"`{short(h2, 50)}` in {cfi.qualname}")
+                again.extend(_result_attached_by_callers(g, fi))
             if attached_by_api and again:
                 rep.violation("C03.R5", key, site, f"create_warning(append_to={unparse(a)}) already appends the message node and returns the same object, which is then attached again by {again[0]}: the system_message occurs twice in the tree")
             elif attached_by_api:
@@ -4162,6 +4270,15 @@ def mutants(corpus: Corpus):
     f = h2n.func("html_to_nodes")
     c = find_node(f, lambda n: isinstance(n, ast.Call) and _create_warning_call(n) and kwarg(n, "append_to") is None)
     add("c03-html-warning-attached-twice", "C03.R5", h2n, c.keywords[-1].value if c is not None and c.keywords else None, (unparse(c.keywords[-1].value) + ", append_to=renderer.current_node") if c is not None and c.keywords else "", "warning node attached once")
+    f = h2n.functions.get("_html_to_nodes")
+    c = find_node(f, lambda n: isinstance(n, ast.Call) and _create_warning_call(n) and kwarg(n, "append_to") is None) if f is not None else None
+    add("c03-html-warning-attached-twice-two-callers-up", "C03.R5", h2n, c.keywords[-1].value if c is not None and c.keywords else None, (unparse(c.keywords[-1].value) + ", append_to=renderer.current_node") if c is not None and c.keywords else "", "_html_to_nodes|warning node attached once")
+    # the renderer's wrapper starts to attach by default while consumers of its result still attach the node themselves
+    f = base.func("DocutilsRenderer.create_warning")
+    c = find_node(f, lambda n: isinstance(n, ast.Call) and _create_warning_call(n) and isinstance(parent(n), ast.Return))
+    kwv = kwarg(c, "append_to") if c is not None else None
+    add("c03-wrapper-attaches-to-current-node-by-default", "C03.R5", base, kwv, "self.current_node if append_to is None else append_to", "warning node attached once")
+    add("c03-wrapper-attaches-by-default-or-form", "C03.R5", base, kwv, "append_to or self.current_node", "warning node attached once")
     f = base.func("DocutilsRenderer.run_directive")
     c = find_node(f, lambda n: isinstance(n, ast.Call) and _create_warning_call(n) and kwarg(n, "append_to") is None and isinstance(parent(n), ast.Assign))
     add("c03-unknown-directive-warning-attached-twice", "C03.R5", base, c.keywords[-1].value if c is not None and c.keywords else None, (unparse(c.keywords[-1].value) + ", append_to=self.current_node") if c is not None and c.keywords else "", "warning node attached once")
